@@ -7,7 +7,7 @@
 #ifndef NDEBUG
 #define NDEBUG
 #endif
-#include "fwddoms.inc"
+#include "fwddoms.hpp"
 #include <crab/domains/intervals.hpp>
 #include <crab/domains/split_dbm.hpp>
 #include <crab/domains/split_oct.hpp>
